@@ -493,7 +493,7 @@ def r5_templates(ctx):
 
 def r6_json(ctx, prog):
     r = Rule("C11.R6", "exported strings pass through a JSON string escaper",
-             "`valid JSON that decodes to those same strings for any text`: Rust Debug escapes (\\u{a0}, \\0) are not JSON", floor=4)
+             "`valid JSON that decodes to those same strings for any text`: Rust Debug escapes (\\u{a0}, \\0) are not JSON", floor=5)
     b = prog.body("<leptos_i18n_build::TranslationsFormatter<'_> as std::fmt::Display>::fmt")
     if b is None:
         r.missing("TranslationsFormatter::fmt")
@@ -517,6 +517,34 @@ def r6_json(ctx, prog):
         full = (op_const(t["func"]) or {}).get("fn_full", "")
         if "new_display::<std::rc::Rc<str>>" in full or "new_display::<&std::rc::Rc<str>>" in full or "new_display::<&str>" in full:
             r.viol("R6:TranslationsFormatter::fmt#display", "a string is written verbatim (Display) into the JSON document", file=b.file, line=t["line"])
+    # the file holds exactly this document: it is created / truncated before the document is written (a document written over
+    # a longer file of an earlier build leaves that file's tail behind the closing bracket)
+    wb = None
+    for nm, bb in prog.bodies.items():
+        if bb.crate == "leptos_i18n_build" and re.search(r"LocaleTranslations(::)?<[^>]*>::write_to_dir$", nm):
+            wb = bb
+    if wb is None:
+        r.missing("LocaleTranslations::write_to_dir")
+    else:
+        fam = prog.family(wb) if hasattr(prog, "family") else [wb]
+        names = [callee_name(t) or "" for bb in fam for _i, t in bb.calls()]
+        creates = [n for n in names if n.endswith("std::fs::File::create") or n.endswith("std::fs::write") or n.endswith("std::fs::File::create_new")]
+        opens = [n for n in names if n.endswith("std::fs::OpenOptions::open") or n.endswith("std::fs::File::options") or n.endswith("std::fs::OpenOptions::new") or n.endswith("std::fs::File::open")]
+        trunc_true = False
+        append = any(n.endswith("std::fs::OpenOptions::append") for n in names)
+        set_len = any(n.endswith("std::fs::File::set_len") for n in names)
+        for bb in fam:
+            for _i, t in bb.calls():
+                if (callee_name(t) or "").endswith("std::fs::OpenOptions::truncate"):
+                    c = op_const(t["args"][1]) if len(t["args"]) > 1 else None
+                    if c is not None and str(c.get("int", c.get("bool"))) in ("1", "True", "true"):
+                        trunc_true = True
+        if creates and not opens:
+            r.inst("write_to_dir#file", "the locale file is created with %s (an existing file is truncated first)" % creates[0].split("std::fs::")[-1])
+        elif opens and (trunc_true or set_len) and not append:
+            r.inst("write_to_dir#file", "the locale file is opened with truncate(true) / set_len before the document is written")
+        else:
+            r.viol("R6:write_to_dir#truncates", "the locale file is opened without being truncated (%s): a shorter table written over the file of an earlier build leaves that file's tail after the closing bracket - the export is no longer valid JSON" % sorted(set(x.split("std::fs::")[-1] for x in creates + opens)), file=wb.file, line=wb.line)
     fn = ctx.ast.fn(BL, "write_json_str")
     if fn is None:
         r.missing("write_json_str")
